@@ -130,7 +130,7 @@ impl Scenario for C10 {
     fn runs(&self, tier: Tier) -> u64 {
         match tier {
             Tier::Quick => 200_000,
-            Tier::Thorough => 10_000_000,
+            Tier::Thorough => 60_000_000,
         }
     }
 
@@ -147,8 +147,14 @@ impl Scenario for C10 {
                 ops.push(Op::Fork);
                 ops.extend(gen_suffix(rng, kind, 24));
                 spec.ops = ops;
+                // aux[0] = 1: the clone is made with Clone::clone_from into a generator that is
+                // already in use (built from seed2 and advanced by aux[1] next_u32 calls)
+                if rng.chance(1, 3) {
+                    spec.aux = vec![1, rng.below(2 * kind.block_words() as u64 + 3)];
+                    spec.seed2 = Some(gen_seed(rng, kind));
+                }
             }
-            8..=12 => {
+            8..=11 => {
                 spec.variant = "skew".into();
                 let kind = pick_det_kind(rng);
                 spec.kind = Some(kind);
@@ -167,6 +173,46 @@ impl Scenario for C10 {
                     4 => vec![1, 3, 2, 4],                              // fill(8) vs two fill(4)
                     _ => vec![rng.range(0, 3), rng.range(1, 7), rng.range(0, 3), rng.range(1, 7)],
                 };
+            }
+            12 => {
+                // two generators from DIFFERENT (often near-equal) seeds with the same public history
+                spec.variant = "two_seeds".into();
+                let use_core = rng.chance(1, 4);
+                let kind = if use_core {
+                    let ck = *rng.pick(&CORE_KINDS);
+                    spec.core = Some(ck);
+                    ck.rng_kind()
+                } else {
+                    pick_det_kind(rng)
+                };
+                spec.kind = Some(kind);
+                let s1 = gen_seed(rng, kind);
+                let mut s2 = if rng.chance(1, 2) { gen_seed(rng, kind) } else { s1.clone() };
+                if s2 == s1 {
+                    // near-equal: one flipped bit
+                    match &mut s2 {
+                        crate::gens::SeedSpec::Bytes(b) => {
+                            let i = rng.below(b.len() as u64) as usize;
+                            b[i] ^= 1 << rng.below(8);
+                        }
+                        crate::gens::SeedSpec::U64(x) => *x ^= 1 << rng.below(64),
+                        crate::gens::SeedSpec::FromRng(src) | crate::gens::SeedSpec::TryFromRng(src) => {
+                            let n = kind.from_rng_len();
+                            let mut p = src.bytes(0, n);
+                            let i = rng.below(n as u64) as usize;
+                            p[i] ^= 1 << rng.below(8);
+                            src.prefix = p;
+                        }
+                    }
+                }
+                spec.seed = Some(s1);
+                spec.seed2 = Some(s2);
+                // fresh generators are the interesting case; sometimes after a common history
+                spec.pre = if rng.chance(1, 2) { 0 } else { rng.below(pre_range(kind) + 1) as u32 };
+                let mut ops = if rng.chance(1, 2) { vec![] } else { gen_output_ops(rng, kind, 6) };
+                ops.push(Op::Fork);
+                ops.extend(gen_suffix(rng, kind, 10));
+                spec.ops = ops;
             }
             13..=15 => {
                 spec.variant = "bitflip".into();
@@ -208,6 +254,7 @@ impl Scenario for C10 {
         st.evals += 1;
         let r = match spec.variant.as_str() {
             "clone" | "skew" => self.run_pair(spec, st),
+            "two_seeds" => self.run_two_seeds(spec, st),
             "bitflip" => self.run_bitflip(spec, st),
             "core" => self.run_core(spec, st),
             "isaac_array" => self.run_array(spec, st),
@@ -220,7 +267,7 @@ impl Scenario for C10 {
     }
 
     fn rule(&self) -> String {
-        "Each run is one of: (clone) a C05-style prefix history on one of the 19 deterministic types, so that forks happen mid-block and with a half pending, then clone(), `fork == original` where == exists, then a suffix of next_u32/next_u64/fill_bytes/jump/long_jump applied to both in lock-step (identical results, still equal after every op, 2-block drain); (skew) the converse: after the fork the two sides are advanced by different call shapes (one next_u32, d words inside the block, one whole block, next_u64 vs two next_u32, fill(8) vs two fill(4), random), then `a == b` is evaluated: if it says equal both must have identical futures under the probe suffix, and two Hc128Rng at different read positions of the same block must compare unequal; (bitflip) one bit of the stored bincode image of a non-buffered generator or of IsaacCore/Isaac64Core is flipped (anywhere, or in the trailing scalar fields a/b/c) and the image deserialised: if original == flipped their futures must be identical; (core) Hc128Core/IsaacCore/Isaac64Core: clone == original, identical generate() blocks in lock-step, and cores compared after one side ran k extra generate() calls; (isaac_array) two result buffers differing in exactly one element must be unequal, equal contents equal. distinct_nontrivial = distinct (type, fork buffer index, half flag, pair-construction kind, == verdict) signatures.".into()
+        "Each run is one of: (clone) a C05-style prefix history on one of the 19 deterministic types, so that forks happen mid-block and with a half pending, then clone(), `fork == original` where == exists, then a suffix of next_u32/next_u64/fill_bytes/jump/long_jump applied to both in lock-step (identical results, still equal after every op, 2-block drain); (the clone is made with clone() or, in a third of the runs, with clone_from() into an unrelated generator of the same type that is already in use); (two_seeds) two generators or cores built from DIFFERENT, often near-equal (one flipped bit) seeds through any route, compared fresh or after the same public history: if == says equal their futures must be identical; (skew) the converse: after the fork the two sides are advanced by different call shapes (one next_u32, d words inside the block, one whole block, next_u64 vs two next_u32, fill(8) vs two fill(4), random), then `a == b` is evaluated: if it says equal both must have identical futures under the probe suffix, and two Hc128Rng at different read positions of the same block must compare unequal; (bitflip) one bit of the stored bincode image of a non-buffered generator or of IsaacCore/Isaac64Core is flipped (anywhere, or in the trailing scalar fields a/b/c) and the image deserialised: if original == flipped their futures must be identical; (core) Hc128Core/IsaacCore/Isaac64Core: clone == original, identical generate() blocks in lock-step, and cores compared after one side ran k extra generate() calls; (isaac_array) two result buffers differing in exactly one element must be unequal, equal contents equal. distinct_nontrivial = distinct (type, fork buffer index, half flag, pair-construction kind, == verdict) signatures.".into()
     }
     fn assumptions(&self) -> Vec<String> {
         vec![
@@ -242,6 +289,9 @@ impl Scenario for C10 {
             "probe:bitflip_unequal",
             "probe:array_one_element_differs",
             "probe:core_clone_equal",
+            "probe:clone_from_into_used_generator",
+            "probe:two_seeds_eq_false",
+            "probe:two_seeds_fresh_compared",
         ]
     }
 }
@@ -291,7 +341,21 @@ impl C10 {
             }
         }
         let idx = consumed % kind.block_words() as u64;
-        let mut b = sut(guard(|| a.boxed_clone()), "clone")?;
+        let via_clone_from = spec.variant == "clone" && spec.aux.first().copied() == Some(1) && spec.seed2.is_some();
+        let mut b = if via_clone_from {
+            // destination: an unrelated, already used generator of the same type
+            let mut d = build(spec, true).map_err(E::End)?;
+            for _ in 0..spec.aux.get(1).copied().unwrap_or(0).min(600) {
+                sut(super::c05::do_call(d.as_mut(), Call::U32), "dirty")?;
+            }
+            let src = a.as_ref();
+            let dst = d.as_mut();
+            sut(guard(|| dst.clone_from_dyn(src)), "clone_from")?;
+            st.count("probe:clone_from_into_used_generator");
+            d
+        } else {
+            sut(guard(|| a.boxed_clone()), "clone")?
+        };
         if kind.buffered() && idx != 0 {
             st.count("probe:clone_mid_block");
         }
@@ -340,6 +404,65 @@ impl C10 {
                     if wa != wb2 && idx != 0 && (idx + wa) / 16 == (idx + wb2) / 16 {
                         st.count("probe:hc128_same_block_different_index");
                     }
+                }
+                Ok(())
+            }
+            None => Ok(()),
+        }
+    }
+
+    fn run_two_seeds(&self, spec: &Spec, st: &mut Stats) -> Result<(), E> {
+        let kind = spec.kind.expect("kind");
+        if let Some(ck) = spec.core {
+            let mk = |seed| -> Result<Box<dyn DynCore>, E> {
+                match sut(construct_core(ck, seed), "construct")? {
+                    CoreConstructed::Ok(c, _) => Ok(c),
+                    CoreConstructed::Err(..) => Err(E::End(RunEnd::Discard("source_error".into()))),
+                }
+            };
+            let mut a = mk(spec.seed.as_ref().unwrap())?;
+            let mut b = mk(spec.seed2.as_ref().unwrap())?;
+            for _ in 0..spec.pre.min(4) {
+                sut(guard(|| (a.generate(), b.generate())), "generate")?;
+            }
+            let eq = sut(guard(|| a.eq_dyn(b.as_ref())), "eq")?;
+            st.sig(&[100 + ck as u64, spec.pre.min(4) as u64, 0, 6, eq as u64]);
+            st.count(if eq { "probe:two_seeds_eq_true" } else { "probe:two_seeds_eq_false" });
+            if eq {
+                for blk in 0..2 {
+                    let (x, y) = sut(guard(|| (a.generate(), b.generate())), "generate")?;
+                    if x != y {
+                        return Err(E::End(viol("C10/equal_but_different_future", format!("{}:two_seeds", ck.name()), format!("{}: two cores built from different seeds compare equal after {} generate() calls, but block {} of their outputs differs", ck.name(), spec.pre.min(4), blk))));
+                    }
+                }
+            }
+            return Ok(());
+        }
+        let mut a = build(spec, false).map_err(E::End)?;
+        let mut b = build(spec, true).map_err(E::End)?;
+        let native = if kind.word_bits() == 32 { Call::U32 } else { Call::U64 };
+        for _ in 0..spec.pre {
+            sut(super::c05::do_call(a.as_mut(), native), "pre")?;
+            sut(super::c05::do_call(b.as_mut(), native), "pre")?;
+        }
+        let fork_at = spec.ops.iter().position(|o| *o == Op::Fork).unwrap_or(spec.ops.len());
+        for op in &spec.ops[..fork_at] {
+            sut(apply(a.as_mut(), op), "prefix")?;
+            sut(apply(b.as_mut(), op), "prefix")?;
+        }
+        let suffix: Vec<Op> = if fork_at < spec.ops.len() { spec.ops[fork_at + 1..].to_vec() } else { vec![] };
+        let verdict = sut(guard(|| a.eq_dyn(b.as_ref())), "eq")?;
+        let fresh = spec.pre == 0 && fork_at == 0;
+        st.sig(&[kind.id(), fresh as u64, 0, 6, verdict.map(|v| v as u64).unwrap_or(2)]);
+        match verdict {
+            Some(true) => {
+                st.count("probe:two_seeds_eq_true");
+                lockstep(a.as_mut(), b.as_mut(), &suffix, st, "two_seeds", "C10/equal_but_different_future")
+            }
+            Some(false) => {
+                st.count("probe:two_seeds_eq_false");
+                if fresh {
+                    st.count("probe:two_seeds_fresh_compared");
                 }
                 Ok(())
             }
